@@ -47,6 +47,8 @@ TNext ==
         \/ a.a = "tick" /\ Tick /\ Matches /\ Consume
         \/ a.a = "probe" /\ Probe(a.t) /\ Matches /\ Consume
         \/ a.a = "restart" /\ RestartSidecar(a.i) /\ Matches /\ Consume
+        \/ a.a = "shrink" /\ ShrinkByOne /\ Matches /\ Consume
+        \/ a.a = "recreate" /\ RecreatePod(a.i) /\ Matches /\ Consume
         \/ a.a \in {"add", "remove", "size", "alive"} /\ EnvStep(a) /\ Matches /\ Consume
         \/ a.a = "noop" /\ UNCHANGED allvars /\ Matches /\ Consume
   \/ CycleStep /\ UNCHANGED <<tr, l>>
